@@ -418,3 +418,138 @@ def _(self, result):
 @c_num.canary('canary:always-an-integer')
 def _(self, result):
     return isinstance(result, int)
+
+
+# ------------------------------------------------------------------------------------ handlers that reject malformed text
+# Operand.ast: two adjacent operands are rejected; Parenthesis.ast: a closing parenthesis without its opening one, or an
+# empty pair, is rejected.  Token objects are built directly (their regex constructors are covered by Token.__init__ above);
+# `builder` is any object with append (a list here).
+from pyvc.contract import ListT as _ListT, BoolT as _BoolT
+
+
+def _tk(cls, **attr):
+    return ObjT(cls, {'attr': RecordT({k: (v if isinstance(v, TypeGen) else ConstT(v)) for k, v in attr.items()}), 'source': ConstT('')})
+
+
+def _n_args_of(t):
+    return t.n_args
+
+
+class _OpenParT(ObjT):
+    """An opening parenthesis on the stack with its argument counter."""
+
+    def __init__(self):
+        super().__init__('formulas.tokens.parenthesis:Parenthesis',
+                         {'attr': RecordT({'name': ConstT('('), 'start': ConstT('('), 'check_n': ConstT(_n_args_of)}), 'source': ConstT(''),
+                          'n_args': OneOf(ConstT(0), ConstT(1), ConstT(2), ConstT(3))})
+
+
+PrevToken = OneOf(_tk('formulas.tokens.operand:Number', name='1'), _tk('formulas.tokens.operand:String', name='a'),
+                  _tk('formulas.tokens.operator:OperatorToken', name='+'), _tk('formulas.tokens.operator:OperatorToken', name='%'),
+                  _tk('formulas.tokens.parenthesis:Parenthesis', name='(', start='('),
+                  _tk('formulas.tokens.parenthesis:Parenthesis', name=')', end=')'))
+
+
+def lemma_operand_ast(self, tokens, stack, builder):
+    self.ast(tokens, stack, builder)
+    return tokens, stack, builder
+
+
+c_opd = Contract(lambda: lemma_operand_ast,
+                 dict(self=_tk('formulas.tokens.operand:Number', name='2'), tokens=OneOf(ConstT([]), _ListT(PrevToken)),
+                      stack=OneOf(ConstT([]), _ListT(_OpenParT())), builder=ConstT([])),
+                 'C18', name='Operand.ast', use=[], frame=('tokens', 'stack', 'builder'))
+CONTRACTS.append(c_opd)
+
+
+def _is_operand(t):
+    from formulas.tokens.operand import Operand
+    return isinstance(t, Operand)
+
+
+@c_opd.ensures('an-operand-after-a-non-operand-is-recorded-and-counted-as-an-argument', 'P')
+def _(self, tokens, stack, builder, result, old):
+    return ((not old['tokens']) or not _is_operand(old['tokens'][-1])) and len(tokens) == len(old['tokens']) + 1 and tokens[-1] is self \
+        and len(builder) == 1 and builder[0] is self and ((not stack) or stack[-1].n_args == old['stack'][-1].n_args + 1)
+
+
+@c_opd.raises(_TokenError, 'two-adjacent-operands-are-rejected', 'P')
+def _(self, tokens, stack, builder, exc, old):
+    return bool(old['tokens']) and _is_operand(old['tokens'][-1]) and len(builder) == 0
+
+
+@c_opd.canary('canary:argument-counter-untouched')
+def _(self, tokens, stack, builder, result, old):
+    return (not stack) or stack[-1].n_args == old['stack'][-1].n_args
+
+
+def lemma_close_par(self, tokens, stack, builder):
+    self.ast(tokens, stack, builder)
+    return tokens, stack, builder
+
+
+from formulas.errors import ParenthesesError as _ParErr
+c_cpar = Contract(lambda: lemma_close_par,
+                  dict(self=_tk('formulas.tokens.parenthesis:Parenthesis', name=')', end=')'), tokens=_ListT(PrevToken),
+                       stack=OneOf(ConstT([]), _ListT(_tk('formulas.tokens.operator:OperatorToken', name='+')), _ListT(_OpenParT()),
+                                   _ListT(_OpenParT(), _tk('formulas.tokens.operator:OperatorToken', name='*'))),
+                       builder=ConstT([])),
+                  'C18', name='Parenthesis.ast[closing]', use=[], frame=('self', 'tokens', 'stack', 'builder'))
+CONTRACTS.append(c_cpar)
+
+
+def _has_open(stack):
+    from formulas.tokens.parenthesis import Parenthesis
+    return any(isinstance(t, Parenthesis) and 'start' in t.attr for t in stack)
+
+
+@c_cpar.ensures('a-closing-parenthesis-is-accepted-only-with-its-non-empty-opening-one', 'P')
+def _(self, tokens, stack, builder, result, old):
+    # accepted => there was an opening parenthesis holding at least one argument; it and everything above it left the stack
+    return _has_open(old['stack']) and old['stack'][0].n_args >= 1 and len(stack) == 0 and tokens[-1] is self
+
+
+@c_cpar.raises(_ParErr, 'unbalanced-or-empty-parentheses-raise-the-parentheses-error', 'P')
+def _(self, tokens, stack, builder, exc, old):
+    return (not _has_open(old['stack'])) or old['stack'][0].n_args == 0
+
+
+@c_cpar.canary('canary:stack-untouched')
+def _(self, tokens, stack, builder, result, old):
+    return len(stack) == len(old['stack'])
+
+
+def lemma_open_par(self, tokens, stack, builder):
+    self.ast(tokens, stack, builder)
+    return tokens, stack, builder
+
+
+c_opar = Contract(lambda: lemma_open_par,
+                  dict(self=_tk('formulas.tokens.parenthesis:Parenthesis', name='(', start='('), tokens=OneOf(ConstT([]), _ListT(PrevToken)),
+                       stack=OneOf(ConstT([]), _ListT(_OpenParT())), builder=ConstT([])),
+                  'C18', name='Parenthesis.ast[opening]', use=[], frame=('self', 'tokens', 'stack', 'builder'))
+CONTRACTS.append(c_opar)
+
+
+@c_opar.ensures('an-opening-parenthesis-after-a-non-operand-is-pushed', 'P')
+def _(self, tokens, stack, builder, result, old):
+    return ((not old['tokens']) or not _is_operand(old['tokens'][-1])) and len(stack) == len(old['stack']) + 1 and stack[-1] is self \
+        and tokens[-1] is self and len(builder) == 0
+
+
+@c_opar.raises(_TokenError, 'an-operand-directly-followed-by-an-opening-parenthesis-is-rejected', 'P')
+def _(self, tokens, stack, builder, exc, old):
+    return bool(old['tokens']) and _is_operand(old['tokens'][-1])
+
+
+@c_opar.canary('canary:never-pushed')
+def _(self, tokens, stack, builder, result, old):
+    return len(stack) == len(old['stack'])
+
+
+PROPERTIES['C18']['explanation'] = PROPERTIES['C18']['explanation'].replace(
+    'hence len(expr) strictly decreases and the tokeniser terminates on every input.',
+    'hence len(expr) strictly decreases and the tokeniser terminates on every input; every numeric literal of the grammar is accepted with '
+    'its value and type (Number.compile; the regular-language inclusion is decided by regauto); the handlers reject two adjacent operands, an '
+    'operand directly followed by an opening parenthesis, a closing parenthesis without its opening one and an empty pair (Operand.ast, '
+    'Parenthesis.ast on stacks of depth <= 2).')
